@@ -25,6 +25,7 @@ type Tier string
 const (
 	Basic   Tier = "basic"
 	Premium Tier = "premium"
+	Deluxe  Tier = "de'luxe" // an apostrophe is a legal character of a string constant
 )
 
 type Dimensions struct {
